@@ -1448,11 +1448,44 @@ def relevant_hazards(node, f):
     return out
 
 
+def stale_self_reference(node, f):
+    """the class of F03j: a variable v of the flagged condition is changed by `v -= k` / `v++` somewhere in the function, and
+    a condition of the function holds an `==` / `!=` whose two operands both mention v (value flow keeps the symbolic value
+    `v == E(v)` across the compound assignment although E changes with v)"""
+    root = node
+    while root.parent is not None:
+        root = root.parent
+    V = node_vars(root)
+    changed = set()
+    conds = []
+    def walk(sts):
+        for st in sts:
+            if st[0] == "seq":
+                walk(st[1])
+            elif st[0] == "if":
+                conds.append(st[1])
+                walk(st[2])
+                if st[3]:
+                    walk(st[3])
+            elif st[0] == "raw":
+                m = re.match(r"^([a-d])\s*(-=|\+\+)", st[1])
+                if m:
+                    changed.add(m.group(1))
+    walk(f["stmts"])
+    def selfref(n, v):
+        if n.kind == "bin" and n.op in ("eq", "ne") and v in node_vars(n.kids[0]) and v in node_vars(n.kids[1]):
+            return True
+        return any(selfref(k, v) for k in n.kids)
+    return any(v in changed and any(selfref(c, v) for c in conds) for v in V)
+
+
 def classify_cli(cl, f, lines):
     """known-finding key of a refuted CLI verdict (None = not a listed class: reported as a new violation).
     The excuse is granted per flagged node (`relevant_hazards`), not per function.  The former classes F03a
     (isSameExpression), F03c (Known value on the left of a bit test) and F03i (`k - x`, `x * k` in a condition) are fixed
     in the code and are no classes any more."""
+    if cl["id"] in FLOW_IDS and stale_self_reference(cl["node"], f):
+        return "F03j:symbolic-value-self-reference-stale-after-compound-assignment"
     hz = relevant_hazards(cl["node"], f)
     conv = hz - {"bool-compared-with-int", "const-minus-expr", "mul-by-const"}
     if "bool-compared-with-int" in hz and cl["id"] in FLOW_IDS | PAIR_IDS:
